@@ -74,14 +74,14 @@ Proof. unfold getAttribute. now rewrite lower_idem. Qed.
 
 (* views of a plain, non-boolean name *)
 Definition show_aval (s : st) := raw_value s.
-Theorem getAttribute_plain n s : plainp (lower n) = true -> is_binary (lower n) = false ->
+Theorem getAttribute_plain n s : plainp (lower n) = true -> is_binary (lower n) = false -> is_binary_string (lower n) = false ->
   snd (getAttribute n s) = match od_get (lower n) (plain s) with Some v => raw_value (sync s) v | None => PNone end
   /\ fst (getAttribute n s) = sync s.
 Proof.
-  intros Hp Hb. unfold getAttribute. rewrite Hb. pose proof Hp as Hp'. unfold plainp, is_special in Hp.
+  intros Hp Hb Hbs. unfold getAttribute. rewrite Hb. pose proof Hp as Hp'. unfold plainp, is_special in Hp.
   apply negb_true_iff, orb_false_iff in Hp as [H1 H2]. rewrite H1, H2. simpl. split; [|reflexivity].
   rewrite <- (plain_sync s). unfold plain. rewrite od_get_kfilter by exact Hp'.
-  unfold od_has, getitem. rewrite lower_idem, H2, H1. destruct (od_get (lower n) (dict (sync s))); reflexivity.
+  unfold od_has, getitem. rewrite lower_idem, H2, H1, Hbs. destruct (od_get (lower n) (dict (sync s))); reflexivity.
 Qed.
 Theorem hasAttribute_plain n s : plainp (lower n) = true -> hasAttribute n s = od_has (lower n) (plain s).
 Proof.
@@ -89,13 +89,13 @@ Proof.
   apply negb_true_iff, orb_false_iff in Hp as [H1 H2]. rewrite H1. unfold od_has, plain. now rewrite od_get_kfilter.
 Qed.
 (* boolean names: True/value when present, False when absent *)
-Theorem getAttribute_binary n s : plainp (lower n) = true -> is_binary (lower n) = true ->
+Theorem getAttribute_binary n s : plainp (lower n) = true -> is_binary (lower n) = true -> is_binary_string (lower n) = false ->
   getAttribute n s = (s, match od_get (lower n) (plain s) with
                          | Some v => if truthy (raw_value s v) then raw_value s v else PTrue
                          | None => PFalse end).
 Proof.
-  intros Hp Hb. unfold getAttribute. rewrite Hb. f_equal. pose proof Hp as Hp'. unfold plainp, is_special in Hp.
-  apply negb_true_iff, orb_false_iff in Hp as [H1 H2]. unfold contains, getitem, plain. rewrite !lower_idem, H1, H2.
+  intros Hp Hb Hbs. unfold getAttribute. rewrite Hb. f_equal. pose proof Hp as Hp'. unfold plainp, is_special in Hp.
+  apply negb_true_iff, orb_false_iff in Hp as [H1 H2]. unfold contains, getitem, plain. rewrite !lower_idem, H1, H2, Hbs.
   rewrite od_get_kfilter by exact Hp'. unfold od_has. destruct (od_get (lower n) (dict s)); reflexivity.
 Qed.
 (* the ordered views list the plain names in the order of the mapping *)
@@ -118,8 +118,8 @@ Lemma keysok_setitem k v s : KeysOK s -> KeysOK (fst (setitem k v s)).
 Proof.
   intros H. unfold setitem. destruct (String.eqb (lower k) "style").
   - cbn [fst]. unfold KeysOK. cbn [dict with_dict]. apply keys_od_set_NoDup. apply keysok_assign, keysok_ensure. exact H.
-  - destruct (String.eqb (lower k) "class"); simpl; auto. destruct (is_binary_string (lower k)); simpl; auto.
-    unfold KeysOK. simpl. now apply keys_od_set_NoDup.
+  - destruct (String.eqb (lower k) "class"); simpl; auto. destruct (is_binary_string (lower k)); simpl;
+    unfold KeysOK; simpl; now apply keys_od_set_NoDup.
 Qed.
 Lemma keysok_delitem k s : KeysOK s -> KeysOK (delitem k s).
 Proof.
